@@ -370,8 +370,19 @@ class NestGen:
             self.lines.append(Ln(rng.choice(['#', '#pragma chv_p q', '# pragma chv_r', '#line 77']), 'other'))
         else:
             if not active:
-                self.lines.append(Ln('#error not reached', 'error'))
-                self.feat.add('error-skipped')
+                r3 = rng.random()
+                if r3 < 0.5:
+                    self.lines.append(Ln('#error not reached', 'error'))
+                    self.feat.add('error-skipped')
+                elif r3 < 0.8:
+                    self.lines.append(Ln(rng.choice(['#chv_unknown_directive x', '#define 3', '#undef 1']), 'bad'))
+                    self.feat.add('bad-directive-skipped')
+                else:
+                    # #ifdef without a macro name in a skipped group still opens a nested section
+                    self.lines.append(Ln(rng.choice(['#ifdef', '#ifndef', '#ifdef 1', '# ifndef "s"']), 'ifdef-noname'))
+                    self.text()
+                    self.lines.append(Ln('#endif', 'endif 0'))
+                    self.feat.add('ifdef-noname-skipped')
             else:
                 self.text()
 
@@ -454,7 +465,7 @@ class NestGen:
         """make the stream ill-formed somewhere"""
         rng = self.rng
         how = rng.choice(['stray-else', 'stray-elif', 'stray-endif', 'unterminated', 'else-else', 'elif-after-else', 'error',
-                          'skipped-else-else', 'unterminated-skipped', 'div0'])
+                          'skipped-else-else', 'unterminated-skipped', 'div0', 'bad-directive', 'ifdef-noname'])
         self.feat.add('malformed:' + how)
         L = self.lines
         pos = rng.randrange(0, len(L) + 1)
@@ -481,6 +492,12 @@ class NestGen:
                           Ln('#elif', 'elif n 0 s'), Ln('#endif', 'endif 0'), Ln('#endif', 'endif 0')]
         elif how == 'unterminated-skipped':
             L[pos:pos] = [Ln('#if 0', 'if n 0 s'), Ln('#if 1', 'if n 1 s'), Ln('#endif', 'endif 0')]
+        elif how == 'bad-directive':
+            # (not generated here: '#undef' / '#define' at the end of a line - chibicc takes the first token of the next line for the
+            #  macro name; ill-formed input, outside this property)
+            L.insert(pos, Ln(rng.choice(['#chv_unknown_directive x', '#undef 1', '#undef "s"']), 'bad'))
+        elif how == 'ifdef-noname':
+            L[pos:pos] = [Ln(rng.choice(['#ifdef', '#ifndef', '#ifdef 1']), 'ifdef-noname'), Ln('#endif', 'endif 0')]
         elif how == 'div0':
             L.insert(pos, Ln('#if 1 / 0', 'if b div n 1 s n 0 s'))
             L.insert(pos + 1, Ln('#endif', 'endif 0'))
@@ -496,7 +513,8 @@ def classify_err(stderr):
                      ('unterminated conditional directive', 'unterminated'), ('cannot open file', 'cannot-open'),
                      ('-include:', 'cannot-open'),
                      ('division by zero', 'bad-expr'), ('no expression', 'bad-expr'), ('extra token', 'bad-expr'),
-                     ('expected', 'bad-expr'), ('invalid preprocessor directive', 'bad-directive')):
+                     ('expected', 'bad-expr'), ('invalid preprocessor directive', 'bad-directive'),
+                     ('macro name must be an identifier', 'bad-directive')):
         if pat in last:
             return cls
     if last == 'error':
